@@ -1964,7 +1964,21 @@ func DeepCopy(v interface{}) interface{} {
 	return deepCopy(reflect.ValueOf(v)).Interface()
 }
 
+// Beat, if set, is called every few thousand values inside the deep copy /
+// compare helpers: a heartbeat for the worker's watchdog while the harness
+// itself walks a result of 10^5..10^6 values.
+var Beat func()
+
+var beatCount uint32
+
+func beat() {
+	if beatCount++; beatCount&0xfff == 0 && Beat != nil {
+		Beat()
+	}
+}
+
 func deepCopy(v reflect.Value) reflect.Value {
+	beat()
 	switch v.Kind() {
 	case reflect.String:
 		out := reflect.New(v.Type()).Elem()
@@ -2028,6 +2042,7 @@ func DeepEq(a, b interface{}) bool {
 }
 
 func deepEq(a, b reflect.Value) bool {
+	beat()
 	if a.Type() != b.Type() {
 		return false
 	}
